@@ -1025,7 +1025,7 @@ func vMain(t *testing.T, id string, quick, thorough int) {
 	})
 }
 
-func TestVerifC18(t *testing.T) { vMain(t, "C18", 1500, 30000) }
-func TestVerifC16(t *testing.T) { vMain(t, "C16", 1500, 30000) }
-func TestVerifC19(t *testing.T) { vMain(t, "C19", 1500, 30000) }
-func TestVerifC20(t *testing.T) { vMain(t, "C20", 1500, 30000) }
+func TestVerifC18(t *testing.T) { vMain(t, "C18", 700, 30000) }
+func TestVerifC16(t *testing.T) { vMain(t, "C16", 700, 30000) }
+func TestVerifC19(t *testing.T) { vMain(t, "C19", 700, 30000) }
+func TestVerifC20(t *testing.T) { vMain(t, "C20", 700, 30000) }
